@@ -177,7 +177,7 @@ func gen(g *hx.Gen) {
 			}
 		}
 	}
-	n := g.Count(2200, 60000)
+	n := g.Count(2200, 40000)
 	for i := 0; i < n; i++ {
 		switch c := r.Intn(20); {
 		case c < 11:
